@@ -86,6 +86,20 @@ struct vbi_decoder {
 	vbi_program_id		vps_pid;
 };
 
+#ifdef ZVBI_VERIF
+/* Verification hook H2 (never defined by the regular build): a seeded
+   delay at places where the decoder has just dropped one of its mutexes,
+   to diversify thread schedules under ThreadSanitizer. Disabled unless
+   zvbi_verif_yield_seed (or the environment variable ZVBI_VERIF_YIELD)
+   is non-zero. Never called with a library mutex held. */
+extern unsigned int	zvbi_verif_yield_seed;
+extern unsigned long	zvbi_verif_yield_count[8];
+extern void		_vbi_verif_yield(unsigned int site);
+#  define VERIF_YIELD(site) _vbi_verif_yield(site)
+#else
+#  define VERIF_YIELD(site) ((void) 0)
+#endif
+
 #ifndef VBI_DECODER
 #define VBI_DECODER
 /**
